@@ -205,6 +205,11 @@ class _Raise(Exception):
         self.what, self.where = what, where
 
 
+class _BodyExit(Exception):
+    def __init__(self, leave):
+        self.leave = leave
+
+
 class _Return(Exception):
     def __init__(self, value):
         self.value = value
@@ -359,6 +364,7 @@ class _Env:
         self.global_names: set[str] = set()
         self.is_class_body = False
         self.yields = None       # list collecting yielded values when a generator function is interpreted
+        self.on_yield = None     # callback(value) run at `yield` when a context-manager generator is inlined
         self.owner = None        # ClassVal owning the method being interpreted (for super())
         self.self_name = None
 
@@ -394,6 +400,9 @@ class _Env:
     def exec_stmt(self, st: ast.AST):
         if isinstance(st, ast.Expr):
             if isinstance(st.value, ast.Constant):
+                return
+            if isinstance(st.value, ast.Yield) and self.on_yield is not None:
+                self.on_yield(self.ev(st.value.value) if st.value.value is not None else None)
                 return
             if isinstance(st.value, ast.Yield) and self.yields is not None:
                 self.yields.append(self.ev(st.value.value) if st.value.value is not None else None)
@@ -512,6 +521,29 @@ class _Env:
                             raise _Abort(f'del failed: {ex}')
                     else:
                         raise _Abort('del on unknown')
+        elif isinstance(st, ast.Try) and self.depth > 0 and getattr(self.f, 'faithful_try', False):
+            # opt-in (rules that interpret protocols with cleanup): handlers catch interpreted raises, and the
+            # finally clause runs on every exit — return, raise, break, continue
+            try:
+                try:
+                    self.exec_block(st.body)
+                except _Raise as r:
+                    h = self._matching_handler(st.handlers, r)
+                    if h is None:
+                        raise
+                    if h.name:
+                        self.store(h.name, Inst('exception', (repr(r.what),)))
+                    prev = getattr(self, '_handling', None)
+                    self._handling = r
+                    try:
+                        self.exec_block(h.body)
+                    finally:
+                        self._handling = prev
+                else:
+                    self.exec_block(st.orelse)
+            finally:
+                if st.finalbody:
+                    self.exec_block(st.finalbody)
         elif isinstance(st, ast.Try):
             # module-level ``try: import x  except ImportError:`` — take the body arm
             try:
@@ -526,6 +558,22 @@ class _Env:
             else:
                 self.exec_block(st.orelse)
             self.exec_block(st.finalbody)
+        elif isinstance(st, ast.With) and self.depth > 0 and getattr(self.f, 'faithful_try', False) and len(st.items) == 1 \
+                and self._contextmanager_call(st.items[0].context_expr) is not None:
+            fv, args, kwargs = self._contextmanager_call(st.items[0].context_expr)
+            it = st.items[0]
+
+            def body(value, it=it, st=st):
+                if it.optional_vars is not None:
+                    self.assign(it.optional_vars, value)
+                try:
+                    self.exec_block(st.body)
+                except (_Return, _Break, _Continue) as leave:
+                    raise _BodyExit(leave)      # leaves the with statement *through* the generator's cleanup
+            try:
+                _call_function(self.f, fv, args, kwargs, self.depth + 1, on_yield=body)
+            except _BodyExit as be:
+                raise be.leave
         elif isinstance(st, ast.With):
             for it in st.items:
                 v = self._ev_or_unknown(it.context_expr, st)
@@ -548,6 +596,8 @@ class _Env:
                     raise _Raise('AssertionError', f'{self.m.relpath}:{st.lineno}')
         elif isinstance(st, ast.Raise):
             what = None
+            if st.exc is None and getattr(self, '_handling', None) is not None:
+                raise self._handling
             if st.exc is not None:
                 f = st.exc.func if isinstance(st.exc, ast.Call) else st.exc
                 try:
@@ -648,6 +698,46 @@ class _Env:
             # attribute stores on anything else are ignored (not tracked)
         else:
             raise _Abort(f'unsupported target {type(t).__name__}')
+
+    def _contextmanager_call(self, e):
+        """(function, args, kwargs) when e calls a @contextmanager generator function of the repository, else None."""
+        if not isinstance(e, ast.Call):
+            return None
+        try:
+            fv = self.ev(e.func)
+        except _Abort:
+            return None
+        if not (isinstance(fv, FuncVal) and any(d.split('.')[-1] == 'contextmanager' for d in fv.decorators())):
+            return None
+        if fv.qual in self.f.stubs:
+            return None
+        args = [self.ev(a) for a in e.args]
+        kwargs = {k.arg: self.ev(k.value) for k in e.keywords if k.arg}
+        return fv, args, kwargs
+
+    def _matching_handler(self, handlers, r):
+        """The handler of an interpreted try statement that catches the interpreted raise r (faithful_try mode)."""
+        what = r.what
+        wname = what.name if isinstance(what, (ClassVal,)) else (what.name if isinstance(what, Sym) else str(what))
+        wname = wname.split('.')[-1]
+        base_only = wname in ('GeneratorExit', 'KeyboardInterrupt', 'SystemExit', 'BaseException')
+        for h in handlers:
+            if h.type is None:
+                return h
+            types = h.type.elts if isinstance(h.type, ast.Tuple) else [h.type]
+            for t in types:
+                try:
+                    tv = self.ev(t)
+                except _Abort:
+                    tv = Unknown('handler type')
+                tname = (tv.name if isinstance(tv, (ClassVal, Sym)) else ast.unparse(t)).split('.')[-1]
+                if tname == 'BaseException' or (tname == 'Exception' and not base_only) or tname == wname:
+                    return h
+                if isinstance(what, ClassVal) and isinstance(tv, ClassVal) and what.derives_from(tv):
+                    return h
+                if isinstance(what, ClassVal) and any(c.name == tname for c in what.mro() if isinstance(c, ClassVal)):
+                    return h
+        return None
 
     # -- expressions --------------------------------------------------
     def truth(self, v) -> bool:
@@ -1222,7 +1312,7 @@ def _construct(env: _Env, cls: ClassVal, args, kwargs, e):
     return Inst(cls.qual, tuple(args), tuple(sorted(kwargs.items())), site)
 
 
-def _call_function(folder: Folder, fn: FuncVal, args: list, kwargs: dict, depth: int):
+def _call_function(folder: Folder, fn: FuncVal, args: list, kwargs: dict, depth: int, on_yield=None):
     if depth > folder.max_depth:
         return Unknown('inlining depth')
     node = fn.node
@@ -1272,6 +1362,14 @@ def _call_function(folder: Folder, fn: FuncVal, args: list, kwargs: dict, depth:
         from .flow import walk_shallow
         is_gen = any(isinstance(x, (ast.Yield, ast.YieldFrom)) for x in walk_shallow(node))
         node._is_generator = is_gen
+    if is_gen and on_yield is not None:
+        # a @contextmanager generator entered by a `with` statement: the body of the with statement runs at the yield
+        env.on_yield = on_yield
+        try:
+            env.exec_block(node.body)
+        except _Return:
+            pass
+        return None
     if is_gen:
         # a generator function is interpreted eagerly: the tuple of everything it yields
         env.yields = []
